@@ -145,14 +145,14 @@ def _colors_chunk(args):
     n = 0
     if kind == "six":
         for v in range(lo, hi, stride):
-            code = "%06x" % v
-            n += 1
-            try:
-                check_color(code)
-            except Violation as e:
-                bad.append((code, e.bucket, e.msg))
-                if len(bad) > 3:
-                    break
+            for code in ("%06x" % v, "#%06x" % v):
+                n += 1
+                try:
+                    check_color(code)
+                except Violation as e:
+                    bad.append((code, e.bucket, e.msg))
+            if len(bad) > 3:
+                break
     return n, bad
 
 
@@ -185,6 +185,18 @@ def extra(ctx, tier, seed):
                 except Violation as e:
                     ctx.record(e.bucket + "-3digit", dict(kind="color", code=c2), "%s (evaluated right after %r)" % (e.msg, code))
                     ctx.buckets[e.bucket + "-3digit"]["noshrink"] = True
+    # the package's own palettes, in every spelling
+    from labella import utils as _u
+
+    for c in list(getattr(_u, "COLOR_10", [])) + list(getattr(_u, "COLOR_20", [])):
+        body = c.lstrip("#")
+        for c2 in ("#" + body.lower(), body.lower(), "#" + body.upper(), body.upper()):
+            n3 += 1
+            try:
+                check_color(c2)
+            except Violation as e:
+                ctx.record(e.bucket + "-palette", dict(kind="color", code=c2), e.msg)
+                ctx.buckets[e.bucket + "-palette"]["noshrink"] = True
     # 6-digit lower-case codes
     stride = 1 if tier == "thorough" else 257
     total = 16 ** 6
